@@ -900,6 +900,27 @@ example := arena_ledger_balanced_run ⟨32, false, false, false, 3⟩ 16 48 (by 
 example := blocks_track_arena_run ⟨32, false, true, false, 3⟩ 16 48 (by decide) (by decide)
   exThrowOps (by decide)
 
+/-- The REAL wrappers `TypeErasedProblem` / `TypeErasedControlProblem` have `small_buffer_size = 0`
+    (the harness `static_assert`s it): the same history with `sbs = 0` — every payload, also the
+    16-byte one, lives in a heap block (11 blocks instead of 9; the throwing 16-byte value
+    constructor allocates block 1 and gives it back), and all the conclusions hold. -/
+example :
+    let s0 := initState ⟨0, false, false, false, 3⟩ 16 48
+    let f := finish (run s0 exThrowOps)
+    runOuts s0 exThrowOps =
+      [.ok, .excCtor, .excCopy, .ok, .excCopy, .excCopy, .empty, .ok, .ok, .excCopy, .ok, .ok,
+       .val 6 7, .ok, .ok, .val 7 100] ∧
+    f.err = none ∧ badIds f = 0 ∧ badBlocks f = 0 ∧ f.nblk = 11 ∧ f.nextId = 8 ∧
+    arenaAllocs f 0 = 5 ∧ arenaFrees f 0 = 5 ∧ arenaAllocs f 1 = 6 ∧ arenaFrees f 1 = 6 ∧
+    arenaLive f 0 = 0 ∧ arenaLive f 1 = 0 := by decide
+
+example := construct_destroy_once_run ⟨0, true, true, false, 3⟩ 16 48 (by decide) (by decide)
+  exThrowOps (by decide)
+example := arena_ledger_balanced_run ⟨0, false, false, true, 3⟩ 16 48 (by decide) (by decide)
+  exThrowOps (by decide) 0
+example := blocks_track_arena_run ⟨0, false, true, false, 3⟩ 16 48 (by decide) (by decide)
+  exThrowOps (by decide)
+
 /-- Non-vacuity of the hypotheses of `inv_init` / `validOp` for the sizes the harness uses. -/
 example : ownsReferencedObject 16 = true ∧ ownsReferencedObject 32 = true ∧
     ownsReferencedObject 48 = true ∧ validOp (.newInPlace 0 0 48 7 false) :=
